@@ -97,6 +97,8 @@ async fn create_consumer_group(
             .with_error_context(|error| format!("{COMPONENT} (error: {error}) - failed to create consumer group, stream ID: {}, topic ID: {}, group ID: {:?}", stream_id, topic_id, command.group_id))?;
     let consumer_group = consumer_group.read().await;
     let consumer_group_details = mapper::map_consumer_group(&consumer_group).await;
+    // The assigned ID is journalled, otherwise the replay would have to guess it again.
+    command.group_id = Some(consumer_group.group_id);
     drop(consumer_group);
 
     let system = system.downgrade();
